@@ -579,7 +579,7 @@ def tagsrc(M, ti):
     return "FTag.Account" if M.TAGS[ti][2] == "enum" else repr(M.TAGS[ti][0])
 
 
-def observe_tags(M, c, st, o):
+def observe_tags(M, c, st, o, full=True):
     d = dict(st)
     DFLT = ("D",)
     gtags = [(1, "1"), ("1", "1"), (FTag.Account, "1"), (55, "55")]
@@ -685,7 +685,12 @@ def observe_tags(M, c, st, o):
                     o.add("group_errors", "get_group_by_index", "group_out_of_range", sk, canon, r,
                           "a FIXMessageError (TagNotFoundError)", src)
         # ---- get_group_by_tag --------------------------------------------------
-        combos = [(g, gv) for g in gtags for gv in gvals] if tk == "group" else [(gtags[0], gvals[0])]
+        if tk != "group":
+            combos = [(gtags[0], gvals[0])]
+        elif full:
+            combos = [(g, gv) for g in gtags for gv in gvals]
+        else:  # deepest level: the two inner tags, spellings alternating
+            combos = [(gtags[(i + len(st)) % 3], gv) for i, gv in enumerate(gvals)] + [(gtags[3], gv) for gv in gvals]
         for (gt, gcanon), gv in combos:
             r = call(c.get_group_by_tag, tag, gt, gv)
             o.n += 1
@@ -959,7 +964,7 @@ def observe(M, cls, path, st, acc, full=True, obj=None, check="observe"):
     obj: observe this object (claimed to be in state st) instead of a freshly built one."""
     c = rebuild(M, cls, path) if obj is None else obj
     o = Obs()
-    observe_tags(M, c, st, o)
+    observe_tags(M, c, st, o, full)
     observe_whole(M, cls, path, c, st, o, full)
     if o.fails:
         failed_int = {(f[1], f[2], f[4]) for f in o.fails if f[3] == "int"}
@@ -1368,7 +1373,7 @@ def run(ctx):
     ctx.rule = (
         "level-synchronous BFS over sequences of mutators (set / set replace=True / c[t]=v / del / add_group at "
         "default,-1,0,1 with dict and FIXContainer items / set_group; every tag spelling incl. refused ones, every "
-        "value type) on the real FIXMessage (depth D) and FIXContainer (depth D-1); states deduplicated by the "
+        "value type) on the real FIXMessage (depth D) and FIXContainer (depth 3); states deduplicated by the "
         "reference model state; in EVERY distinct state all observers (get, [], get default, in, is_group, "
         "get_group_list, get_group_by_index, get_group_by_tag, query, items, pickle, == with derived containers and "
         "dicts with/without framing tags) are applied under every spelling; every mutator variant is executed on a "
@@ -1381,12 +1386,12 @@ def run(ctx):
         "instead of one per tag. non-trivial = state holding a repeating group with at least two items"
     )
     ctx.bounds = {
-        "depth_FIXMessage": depth, "depth_FIXContainer": depth - 1, "mutator_variants_per_state": len(M.OPS),
+        "depth_FIXMessage": depth, "depth_FIXContainer": 3, "mutator_variants_per_state": len(M.OPS),
         "tag_spellings": [repr(t[0]) for t in M.TAGS], "values": [repr(v[0]) for v in M.VALUES],
         "group_items": [M.item_src(i, 0) for i in range(len(M.ITEMS))], "nesting": 1,
         "pair_matrix_depth": 2,
     }
-    (lv1, lv2), shallow = explore(ctx, M, [("FIXMessage", depth), ("FIXContainer", depth - 1)], 2,
+    (lv1, lv2), shallow = explore(ctx, M, [("FIXMessage", depth), ("FIXContainer", 3)], 2,
                                   1 if ctx.quick else 2, 2)
     ctx.bounds["states_per_level_FIXMessage"] = lv1
     ctx.bounds["states_per_level_FIXContainer"] = lv2
